@@ -14,6 +14,7 @@ import (
 
 	spb "google.golang.org/genproto/googleapis/rpc/status"
 	"google.golang.org/protobuf/encoding/protojson"
+	"google.golang.org/protobuf/encoding/protowire"
 	"google.golang.org/protobuf/proto"
 	"google.golang.org/protobuf/types/known/anypb"
 
@@ -405,6 +406,32 @@ func check05(c *Case, o *Obs, rec Rec) (vs []viol, inconclusive string) {
 		if sc.Code == 0 {
 			if o.HTTP != 200 {
 				add("http-status", "code=0", fmt.Sprintf("successful RPC answered with HTTP %d", o.HTTP))
+			}
+			return
+		}
+		if rec.Sent > 0 && c.Codec == "proto" && c.Accept != "" {
+			// protobuf stream followed by the error (framing pinned from the
+			// unchanged tree): rec.Sent length-prefixed replies, then the
+			// google.rpc.Status document as negotiated - JSON when the request
+			// has no Accept, binary for Accept: application/protobuf - unframed
+			rest := o.Body
+			for i := 0; i < rec.Sent; i++ {
+				n, k := protowire.ConsumeVarint(rest)
+				if k <= 0 || uint64(len(rest)-k) < n {
+					add("stream-body-undecodable", "protobuf-stream,accept="+c.Accept, fmt.Sprintf("reply %d of %d is not a length-prefixed message (%d bytes left)", i+1, rec.Sent, len(rest)))
+					return
+				}
+				rest = rest[k+int(n):]
+			}
+			st := &spb.Status{}
+			var err error
+			if c.Accept == "-" {
+				err = protojson.Unmarshal(rest, st)
+			} else {
+				err = proto.Unmarshal(rest, st)
+			}
+			if err != nil || st.GetCode() != int32(sc.Code) || st.GetMessage() != sc.Msg {
+				add("stream-final-status", "protobuf-stream,accept="+c.Accept, fmt.Sprintf("after the %d replies the body does not end with the handler's status (%d, %+q) in the negotiated encoding: %+q (decode error: %v)", rec.Sent, sc.Code, clip(sc.Msg, 60), clip(string(rest), 80), err))
 			}
 			return
 		}
@@ -922,7 +949,7 @@ func (g *c05Runner) flush() {
 
 // RunC05 is the status / error fidelity check.
 func RunC05(r *mon.Run) {
-	r.Rule = "a scripted handler behind a real Mux returns status (code, message, optional 2 details) before any reply or after 1 / 3 replies; one client per protocol observes the outcome: HTTP JSON/protobuf and Twirp (in-process and HTTP/1 socket), grpc-go over h2c, raw gRPC frames in-process and over h2c, gRPC-web binary/text (in-process and HTTP/1 socket), WebSocket (socket). Cases = (codes 0..16, 17, 18, 19, 31, 32, 63, 64, 100, 255, 256, 2^31-1, 2^31, 2^32-1 x 3 base messages) + (2-3 codes x every message of the message set: empty, ASCII, single bytes embedded in text, '%' at start/middle/end, multi-byte tails, 1 KiB, 70 KiB, 123/124-byte close-frame boundary, seeded random mixes of ASCII / '%' / control / multi-byte pieces), each with and without details, on every protocol x codec x method x reply-count variant, plus a class where the handler calls SetHeader / SendHeader / SetTrailer with custom metadata at entry or right before it returns the status, plus HTTP failures (handler errors on body-less GET and HttpBody upload routes, errors of the mux itself: no codec, no route, wrong verb, unknown method) under 11 request Content-Type x 11 Accept values (absent, registered, with parameters, other case, foreign, wildcard, non-matching, malformed), plus sequences (the request preceded on the same fresh mux by another client's request with the same Accept value and another Content-Type; the answer must equal the one a fresh mux gives to the request alone), plus a sweep of the status message length 0..40 on gRPC-web-text after 0..3 replies, plus Accept-Encoding request headers (gzip, identity, q=0 forms, lists) on the HTTP / Twirp failure classes with the body decoded per the response Content-Encoding, plus WebSocket clients that send Ping / unsolicited Pong frames before / after their data frame, plus a mux with ConnectionTimeoutOption(100ms) whose handler stays quiet for 400 ms before it returns its status (after 0..3 replies; WebSocket, gRPC, gRPC-web, HTTP), plus muxes built with small MaxSendMessageSize / MaxReceiveMessageSize options (64, 256 bytes) x long messages / details, plus client- and bidi-streaming gRPC clients (grpc-go, raw h2c) that keep their send side open until the status arrives (10 s watchdog + goroutine dump), plus a small class where the call's deadline has expired before the handler returns. Every class runs against the handler registered on the mux and (quick: reduced matrix) against the same handler on a real grpc.Server back-end that a second mux proxies through RegisterConn (codes up to 2^31-1). An execution is non-trivial when the scripted handler ran; distinct = (target, protocol, codec, method, replies before status, code class, message shape, details?)"
+	r.Rule = "a scripted handler behind a real Mux returns status (code, message, optional 2 details) before any reply or after 1 / 3 replies; one client per protocol observes the outcome: HTTP JSON/protobuf and Twirp (in-process and HTTP/1 socket), grpc-go over h2c, raw gRPC frames in-process and over h2c, gRPC-web binary/text (in-process and HTTP/1 socket), WebSocket (socket). Cases = (codes 0..16, 17, 18, 19, 31, 32, 63, 64, 100, 255, 256, 2^31-1, 2^31, 2^32-1 x 3 base messages) + (2-3 codes x every message of the message set: empty, ASCII, single bytes embedded in text, '%' at start/middle/end, multi-byte tails, 1 KiB, 70 KiB, 123/124-byte close-frame boundary, seeded random mixes of ASCII / '%' / control / multi-byte pieces), each with and without details, on every protocol x codec x method x reply-count variant, plus a class where the handler calls SetHeader / SendHeader / SetTrailer with custom metadata at entry or right before it returns the status, plus HTTP failures (handler errors on body-less GET and HttpBody upload routes, errors of the mux itself: no codec, no route, wrong verb, unknown method) under 11 request Content-Type x 11 Accept values (absent, registered, with parameters, other case, foreign, wildcard, non-matching, malformed), plus sequences (the request preceded on the same fresh mux by another client's request with the same Accept value and another Content-Type; the answer must equal the one a fresh mux gives to the request alone), plus a sweep of the status message length 0..40 on gRPC-web-text after 0..3 replies, plus Accept-Encoding request headers (gzip, identity, q=0 forms, lists) on the HTTP / Twirp failure classes with the body decoded per the response Content-Encoding, plus protobuf reply streams over HTTP failing after 0..3 replies with Accept absent / protobuf (length-prefixed replies followed by the unframed status document in the negotiated type, pinned from the unchanged tree), plus WebSocket clients that send Ping / unsolicited Pong frames before / after their data frame, plus a mux with ConnectionTimeoutOption(100ms) whose handler stays quiet for 400 ms before it returns its status (after 0..3 replies; WebSocket, gRPC, gRPC-web, HTTP), plus muxes built with small MaxSendMessageSize / MaxReceiveMessageSize options (64, 256 bytes) x long messages / details, plus client- and bidi-streaming gRPC clients (grpc-go, raw h2c) that keep their send side open until the status arrives (10 s watchdog + goroutine dump), plus a small class where the call's deadline has expired before the handler returns. Every class runs against the handler registered on the mux and (quick: reduced matrix) against the same handler on a real grpc.Server back-end that a second mux proxies through RegisterConn (codes up to 2^31-1). An execution is non-trivial when the scripted handler ran; distinct = (target, protocol, codec, method, replies before status, code class, message shape, details?)"
 	r.Floor = 150
 	env, err := newEnv()
 	if err != nil {
@@ -1209,6 +1236,27 @@ func RunC05(r *mon.Run) {
 							c.Script.Replies = 2
 						}
 						g.exec(c, c.Class)
+					}
+				}
+			}
+		}
+	}
+
+	// protobuf (and octet-stream) reply streams over HTTP that fail after
+	// some replies, with Accept absent / protobuf
+	for _, target := range []string{"", "proxy"} {
+		for _, p := range []string{"http", "http-sock"} {
+			if target == "proxy" && p == "http-sock" {
+				continue
+			}
+			for _, ac := range []string{"-", "application/protobuf"} {
+				for _, k := range []int{0, 1, 2, 3} {
+					for _, code := range []uint32{5, 8, 16} {
+						for _, m := range []msgIn{{"50% done", "pct-middle"}, {repeatTo("a longer status message; ", 200), "200B"}} {
+							c := &Case{Kind: "C05", Proto: p, Codec: "proto", Method: "SS", Class: "protobuf-stream-then-status", Target: target, Accept: ac,
+								Script: Script{Code: code, Msg: m.s, Details: code == 8, Replies: k}}
+							g.exec(c, c.Class)
+						}
 					}
 				}
 			}
